@@ -1,5 +1,6 @@
 import ServlinVerif.Driver.C14
 import ServlinVerif.Driver.C20
+import ServlinVerif.Driver.C04
 import ServlinVerif.Driver.C05
 import ServlinVerif.Driver.C17
 import ServlinVerif.Driver.C15
@@ -39,6 +40,7 @@ def handleLine (line : String) : String :=
     | "c01s" => Req.handleSeq args obs
     | "c02" => Req.handleC02 args obs
     | "c03" => Req.handleC03 args obs
+    | "c04" | "c09" | "c10" => C04.handle args obs
     | "c05" => C05.handle args obs
     | "c06" => C06.handleC06 args obs
     | "c08" => C06.handleC08 args obs
